@@ -11,7 +11,7 @@ import re
 from .. import common, callpath, irq, sym, vptr, astq, crules, witness
 
 
-def ir_rules(run, u, r_static, r_lookup, r_copy, r_access):
+def ir_rules(run, u, r_static, r_lookup, r_copy, r_access, r_table=None):
     mod = u["module"]
     pol = u["policy"]
     S = sym.Sym(mod)
@@ -86,6 +86,8 @@ def ir_rules(run, u, r_static, r_lookup, r_copy, r_access):
                 run.instance(r_static, "%s: v-table pointer source" % short, ins.where(), ok=False)
                 run.violation(r_static, "virtual_ptr::%s|vptr-source" % ("final" if is_final else "virtual_ptr(Other&&)"),
                               "%s stores %s: neither the class's static v-table pointer nor an element of the policy's table" % (short, sym.show(v)[:200]), ins.where())
+    if r_table:
+        table_reader_rule(run, u, r_table)
     # copies / conversions / casts keep the pointer
     for f in fns["ctor_conv"]:
         cls, P = vptr.class_of_vp(f.dname)
@@ -130,6 +132,35 @@ def ir_rules(run, u, r_static, r_lookup, r_copy, r_access):
                 run.violation(r_access, "virtual_ptr::%s|object" % kind, "%s does not return the object stored at construction" % short, f.where())
 
 
+def table_reader_rule(run, u, r_table):
+    """Policy::dynamic_vptr(obj) = table[ H(dynamic_type(obj)) ] for every instantiation in the unit"""
+    mod = u["module"]
+    pol = u["policy"]
+    dv = {}
+    for f in vptr.vp_functions(mod)["dynamic_vptr"]:
+        ta = re.search(r"::dynamic_vptr<(.*)>\(", f.dname)
+        if ta and re.match(r"^(const\s+)?yw::[A-Z]\w*(\s+const)?$", ta.group(1).strip()):
+            dv[vptr.pointee(ta.group(1))] = f
+    for cls_name, f in dv.items():
+        S3 = sym.Sym(mod, opaque=r"::dynamic_type<")
+        rv = S3.returned(f, {0: ("arg", 0)}, top=True)
+        d = vptr.lookup_descriptor(S3, f, rv)
+        short = re.sub(r"yorel::yomm2::", "", irq.strip_ret(f.dname))[:150]
+        ok = False
+        why = "the returned value %s is not an element of the policy's table" % sym.show(rv)[:160]
+        if d is not None and d[1] is not None:
+            dyn = [x for x in sym.walk(d[1]) if x[0] == "call" and "::dynamic_type<" in x[1]]
+            Ptxt = witness.POLICIES[pol].replace("policy::", "yorel::yomm2::policy::") if not witness.POLICIES[pol].startswith("yw::") else witness.POLICIES[pol]
+            exp = vptr.expected_key(mod, Ptxt, pol in witness.HASHED, dyn[0]) if dyn else None
+            arg_ok = bool(dyn) and dyn[0][2] and dyn[0][2][-1] == ("arg", 0)
+            tbl_ok = vptr.table_kind(d[0]) == "direct" and ("<%s" % Ptxt) in d[0]
+            ok = exp is not None and d[1] == exp and arg_ok and tbl_ok
+            why = "key %s (expected %s), table %s" % (sym.show(d[1])[:200], sym.show(exp)[:200] if exp else None, d[0][-60:])
+        run.instance(r_table, "%s reads vptrs[%s(dynamic_type(obj))]" % (short, "hash" if pol in witness.HASHED else "id"), f.where(), ok=ok)
+        if not ok:
+            run.violation(r_table, "Policy::dynamic_vptr|key", "%s: %s" % (short, why), f.where())
+
+
 def _strip_deref(k):
     """keys are compared modulo the route to the object (rarg: operator* of the smart pointer) and modulo
     which registered class the instantiation is for (dynamic_type<yw::B> vs dynamic_type<yw::A>)."""
@@ -140,6 +171,38 @@ def _strip_deref(k):
             return _strip_deref(k[2][0])
         return ("call", re.sub(r"yw::[ABC]\b", "yw::K", k[1]), tuple(_strip_deref(x) for x in k[2]))
     return tuple(_strip_deref(x) if isinstance(x, tuple) else x for x in k)
+
+
+def table_writer_rule(run, ast, rule):
+    # the writer of the table: vptrs[H(id)] = class's vptr for every id
+    for f in crules._fn(ast, r"vptr_(vector|map)<.*>::publish_vptrs<"):
+        st = [n for n in astq.walk(f["body"]) if (n.get("k") == "BinaryOperator" and n.get("op") == "=" or (n.get("k") == "CXXOperatorCallExpr" and n.get("oop") == "=")) and any(
+            (astq.refname(x) or "").endswith("::vptrs") for x in astq.walk(n["c"][0] if n.get("k") == "BinaryOperator" else n["c"][1]))]
+        for n in st:
+            lhs = n["c"][0] if n.get("k") == "BinaryOperator" else n["c"][1]
+            rhs = astq.strip(n["c"][1] if n.get("k") == "BinaryOperator" else n["c"][2])
+            sub = [x for x in astq.walk(lhs) if x.get("k") == "CXXOperatorCallExpr" and x.get("oop") == "[]"]
+            val_ok = rhs.get("k") == "CXXMemberCallExpr" and (rhs.get("callee") or "").endswith("::vptr")
+            key_ok = False
+            if sub:
+                k0 = astq.strip(sub[0]["c"][2])
+                hashed = any(x.get("k") == "CallExpr" and (x.get("callee") or "").endswith("::hash_type_id") for y in astq.walk(f["body"]) for x in [y])
+                # the key variable: *type_iter, possibly re-assigned with hash_type_id(index)
+                if k0.get("k") == "DeclRefExpr":
+                    did = k0["ref"]["did"]
+                    init = [d.get("init") for y in astq.walk(f["body"]) if y.get("k") == "DeclStmt" for d in y["decls"] if d["did"] == did]
+                    reas = [y["c"][1] for y in astq.walk(f["body"]) if y.get("k") == "BinaryOperator" and y.get("op") == "=" and astq.strip(y["c"][0]).get("k") == "DeclRefExpr" and astq.strip(y["c"][0])["ref"]["did"] == did]
+                    from_id = bool(init) and init[0] is not None and any(x.get("k") in ("UnaryOperator", "CXXOperatorCallExpr") and (x.get("op") == "*" or x.get("oop") == "*") for x in astq.walk(init[0]))
+                    rehash_ok = all(astq.strip(r0).get("k") == "CallExpr" and (astq.strip(r0).get("callee") or "").endswith("::hash_type_id") and
+                                    astq.strip(astq.strip(r0)["c"][1]).get("k") == "DeclRefExpr" and astq.strip(astq.strip(r0)["c"][1])["ref"]["did"] == did for r0 in reas)
+                    key_ok = from_id and rehash_ok and (bool(reas) == hashed)
+                else:
+                    key_ok = k0.get("k") in ("UnaryOperator", "CXXOperatorCallExpr") and (k0.get("op") == "*" or k0.get("oop") == "*")
+            ok = val_ok and key_ok
+            run.instance(rule, "%s: vptrs[(hashed) id] = the class's v-table pointer" % crules.short(f)[:80], (f["file"], n["l"]), ok=ok)
+            if not ok:
+                run.violation(rule, "%s|store" % re.sub(r"<.*", "", crules.short(f)), "publish_vptrs stores %s at key %s: every id of a class must map (through the policy's hash, if any) to that class's v-table pointer" % (
+                    astq.text(rhs), astq.text(sub[0]["c"][2]) if sub else "?"), (f["file"], n["l"]))
 
 
 def ast_rules(run, rule, ast):
@@ -153,6 +216,7 @@ def ast_rules(run, rule, ast):
             run.instance(rule, "%s: indirect table entry = the class's indirect_vptr()" % crules.short(f)[:80], (f["file"], n["l"]), ok=ok)
             if not ok:
                 run.violation(rule, "vptr_vector::publish_vptrs|indirect-entry", "the table of addresses receives %s instead of the address of the class's static v-table pointer: virtual_ptrs created before a later update go stale" % astq.text(rhs), (f["file"], n["l"]))
+    table_writer_rule(run, ast, "C09-table")
     # accessors of the class records
     for f in [f for f in ast.funcs if f.get("body") and re.search(r"(class_info|generic_compiler::class_)::(indirect_vptr|vptr)$", f["name"])]:
         rets = [n for n in astq.walk(f["body"]) if n.get("k") == "ReturnStmt"]
@@ -189,12 +253,13 @@ def check(run):
     run.rule(r[2], "converting constructors and cast<> carry the source's v-table pointer", floor=5 * len(pols))
     run.rule(r[3], "get / * / -> return the stored object", floor=3 * len(pols))
     run.rule(r[4], "indirect policies: table of addresses of static v-table pointers, reassigned only by install_gv / decode", floor=4)
+    run.rule("C09-table", "Policy::dynamic_vptr(obj) reads the policy's own table at the (hashed) dynamic type id of obj; publish_vptrs writes each class's v-table pointer at the (hashed) id of each of its ids", floor=len(pols) + 4)
     shapes = ["r", "V", "X", "W"]
     for nd in ([True] if run.tier == "quick" else [True, False]):
         units = callpath.build_units(run, pols, shapes if run.tier == "quick" else callpath.shapes_for("quick"), ndebug=nd, tag="c09")
         for u in units:
-            ir_rules(run, u, r[0], r[1], r[2], r[3])
-    src, _ = witness.call_matrix(["p_ind", "release"], ["r"], witness.update_block(["p_ind", "release"]))
+            ir_rules(run, u, r[0], r[1], r[2], r[3], "C09-table")
+    src, _ = witness.call_matrix(["p_ind", "release", "p_map", "p_nohash"], ["r"], witness.update_block(["p_ind", "release", "p_map", "p_nohash"]))
     ast = astq.Ast(common.ast_json(run, src, "c09_ast", funcs="publish_vptrs|class_info::|generic_compiler::class_::|install_gv|decode_dispatch_data|_vptr"))
     ast_rules(run, r[4], ast)
     run.assumptions += ["that the table cell holds the right class's v-table pointer is decided by publishing rules (C05-publish, C10-allids) and is a run-time value otherwise",
